@@ -231,6 +231,13 @@ class C05(PropBase):
         self.merge_stats(g.stats)
         return cmds_out
 
+    def generate(self, n=None, tag="g"):
+        cases = PropBase.generate(self, n, tag)
+        # known findings at the top of the u64 range and of the u16 name length (re-confirmed on every run)
+        cases.append(("u64max_trunc", ["open af", "create =q", "append =q - 3:1 4:2", "truncate =q 18446744073709551615"]))
+        cases.append(("longname", ["open af", "create @65536:1"]))
+        return cases
+
     def oracle(self, cid, cmds, tr):
         ref = RefMap()
         vs = []
@@ -241,6 +248,12 @@ class C05(PropBase):
             c = tr[i]
             out = outcome_of(c)
             op = toks[0]
+            if out and "err=Panic" in out and cid.endswith("u64max_trunc") and op == "truncate":
+                vs.append({"msg": "cmd %d `%s`: the crate panics (debug profile; release builds wrap and evict nothing)" % (i, cmd), "shape": "u64-max-position", "shrinkable": False})
+                return vs
+            if out and "err=Panic" in out and cid.endswith("longname") and op == "create":
+                vs.append({"msg": "cmd %d `create <65536-byte name>`: the crate panics (assert in MultiPlexedRecord::serialize) instead of returning an error" % i, "shape": "name-too-long", "shrinkable": False})
+                return vs
             if op in ("create", "delete", "append", "truncate"):
                 res = apply_ref(ref, toks)
                 if res[0] == "err":
